@@ -38,6 +38,14 @@ def cases(ctx):
     big = {'V': V, 'Sigma': ['a', 'b'], 'S': 'S', 'R': [[A, i, [['t', 'a'], ['v', V[(i + 1) % len(V)]], ['t', 'b'], ['t', 'a']]] for i, A in enumerate(V)] +
            [[A, len(V) + i, [['t', 'b']]] for i, A in enumerate(V)]}
     yield {'ex': names.index('chomsky4'), 'name': 'chomsky4', 'inst': {'G': big, 'start': 'T', 'len': 2}}
+    # (found by the proof of the text-level theorems in Gamba/Props/C13f.lean: the requested statements were refuted by these inputs)
+    yield {'ex': names.index('dfa_reverse'), 'name': 'dfa_reverse', 'inst': {'D': {'Q': ['epsilon'], 'Sigma': ['a'], 'q0': 'epsilon', 'F': [],
+           'delta': [['epsilon', 'a', 'epsilon']]}, 'len': 3}}
+    yield {'ex': names.index('dfa_reverse'), 'name': 'dfa_reverse', 'inst': {'D': {'Q': ['p'], 'Sigma': ['ε'], 'q0': 'p', 'F': ['p'],
+           'delta': [['p', 'ε', 'p']]}, 'len': 3}}
+    g0 = {'V': ['S0'], 'Sigma': ['a'], 'S': 'S0', 'R': [['S0', 0, [['t', 'a']]]]}
+    yield {'ex': names.index('cfg_cyk_matrix'), 'name': 'cfg_cyk_matrix', 'inst': {'G': g0, 'w': 'a'}}
+    yield {'ex': names.index('cfg_leftmost_derivation'), 'name': 'cfg_leftmost_derivation', 'inst': {'G': g0, 'w': 'a'}}
     yield {'ex': -1, 'name': 'shipped-notebooks', 'inst': {}}
 
 
@@ -63,6 +71,7 @@ def lean_requests(c):
     except Exception:
         r = None
     reqs = [r] if r is not None else []
+    c['_obj'] = r is not None
     # the answer-key printers themselves (Gamba/Model/Keys.lean)
     c['_key'] = False
     if r is not None and c['name'] == 'cfg_cyk_matrix':
@@ -71,6 +80,10 @@ def lean_requests(c):
     elif r is not None and c['name'] in ('cfg_leftmost_derivation', 'cfg_rightmost_derivation'):
         reqs.append({'op': 'cfg_derivation_key', 'G': c['inst']['G'], 'w': list(c['inst']['w']), 'leftmost': 'leftmost' in c['name']})
         c['_key'] = True
+    c['_text'] = False
+    if hasattr(ex, 'text_lean'):
+        reqs.append(ex.text_lean(c['inst'], own['ok']))       # the whole pipeline on text (Gamba/Model/CheckText.lean)
+        c['_text'] = True
     return reqs
 
 
@@ -81,6 +94,11 @@ def finding_key(c, own):
         return 'dfa2regexp-nonletter-alphabet'
     if c['name'] == 'nfa2dfa' and '_' in inst['N']['Sigma']:
         return 'nfa2dfa-underscore-symbol'
+    if c['name'] == 'dfa_reverse' and ('epsilon' in inst['D']['Q'] or 'ε' in inst['D']['Sigma']):
+        return 'reverse-key-not-an-nfa-text'
+    if c['name'] in ('cfg_cyk_matrix', 'cfg_leftmost_derivation', 'cfg_rightmost_derivation') and \
+            any(len(v) != 1 or not v.isupper() for v in inst['G']['V']):
+        return 'cfg-key-nonsimple-variable'
     return None
 
 
@@ -94,17 +112,19 @@ def judge(ctx, c, answers):
         if c['name'].startswith('chomsky') and 'not in simple format' in own.get('msg', ''):
             ctx.violation('own-answer-not-printable', {'case': sub, 'impl': own}, finding_key='chomsky-more-than-26-variables')
         else:
-            ctx.violation('own-answer-raises', {'case': sub, 'impl': own})
+            ctx.violation('own-answer-raises', {'case': sub, 'impl': own}, finding_key=finding_key(c, own))
         return
     verdict, out = ex.check(c['inst'], own['ok'])
     if verdict != 'OK':
         ctx.violation('own-answer-rejected', {'case': sub, 'answer': own['ok'], 'verdict': verdict, 'out': out}, finding_key=finding_key(c, own))
-    elif answers:
+    elif answers and c.get('_obj', True):
         la = answers[0]
         if la.get('ok') is not True:
             ctx.violation('correspondence:' + ex.name, {'case': sub, 'answer': own['ok'], 'impl': verdict, 'model': la}, no_input=True)
-    if c.get('_key') and len(answers) > 1 and answers[1].get('ok') != own['ok']:
+    if c.get('_key') and c.get('_obj') and len(answers) > 1 and answers[1].get('ok') != own['ok']:
         ctx.violation('correspondence:answer-key-printer(%s)' % ex.name, {'case': sub, 'impl': own['ok'], 'model': answers[1]}, no_input=True)
+    if c.get('_text') and answers and verdict != 'RAISED' and (answers[-1].get('ok') == 'OK') != (verdict == 'OK'):
+        ctx.violation('correspondence:text:' + ex.name, {'case': sub, 'answer': own['ok'], 'impl': verdict, 'model': answers[-1]}, no_input=True)
     ctx.count('%s:%s' % (ex.name, verdict))
     ctx.record('c13/' + core.digest(sub), verdict)
     ctx.case({'name': c['name'], 'inst': c['inst']}, True)
